@@ -996,6 +996,9 @@ class FnAnalysis:
         ty = self.type_hint(x)
         if ty:
             return self.variants_of(ty)
+        # a checked integer operation that reached this place through a summary (no local carries its type): it is an Option
+        if x.op == "call" and "::checked_" in x.args[0] and x.args[0].split("::")[0] in INT_BITS:
+            return ["None", "Some"]
         return None
 
     # ------------------------------------------------------------------ calls
